@@ -1,4 +1,218 @@
-import StreamzVerif.Model.Graph
+import StreamzVerif.Proofs.EmitWaits
+import StreamzVerif.Props.AsyncZip
+/-
+C03, clause 1, on the dataflow model: *the awaitable returned by an emission does not complete before every
+consumer reachable without crossing a buffering node has finished handling that element.*
+
+`Stream._emit` (core.py 429-462) returns the flattened list of what every `downstream.update` returned, and
+`Stream.emit` turns that list into one awaitable (`gen.convert_yielded` / `asyncio.gather`, core.py 464-501) that
+is done iff every member is done.  In the model the members are the tokens `Res.toks`; a sink whose function
+returns an awaitable allocates one token per invocation (`Ev.sinkStart d tok v md`) and the environment finishes
+it later (`sinkDone tok` puts it into `State.doneToks`).
+
+For every graph `G`, fuel, start state, entry node, value and metadata, if the run ends normally
+(`err = none`, `carried = none`):
+
+  * `kinds_transparent`       every node kind passes on the awaitables of the emissions its `update` makes
+                              (`Transparent`; `slice` did not before 50b9d2a);
+  * `emit_waits`              the tokens returned by `_emit` are exactly the tokens of ALL consumer invocations
+                              the emission started, anywhere downstream, in order (`update_waits`: same for one
+                              `downstream.update`);
+  * `emit_done_implies_consumers_done`, `emit_pending_while_consumer_runs`, `emit_done_needs_every_sinkDone`
+                              hence the emit awaitable is not done when `_emit` returns if any consumer was started,
+                              and it cannot become done before `sinkDone` has happened for every one of them;
+  * `dropped_emit_completes`  an update that emits nothing (filter false, duplicate in `unique`, unfilled
+                              partition/window, `zip` waiting for its other input ...) returns no awaitable: the
+                              emit completes at once;
+  * `collect_crosses`         a buffering node is a backpressure boundary: elements entering `collect` return no
+                              awaitable and start no consumer; the later `flush()` starts consumers but hands no
+                              awaitable to anybody.
+
+The bounds of the asynchronous buffering nodes (buffer, map_async, zip(maxsize)) are proved on their own
+event-loop models: `Props/AsyncBuffer.lean`, `Props/AsyncZip.lean`; those of `zip(maxsize)` are restated at the end
+of this file (`zip_maxsize_bound_partial`, `zip_maxsize_admits_all_blocked`, `zip_no_deadlock`).
+-/
 namespace StreamzVerif.Graph
-theorem placeholder_C03 : True := trivial
+
+variable (G : NodeId → Kind)
+
+/-- Every node kind of the model is transparent: whenever its `update` emits, it returns what the emission
+returned. -/
+theorem kinds_transparent (k : Kind) : Transparent k := all_kinds_transparent k
+
+/-- **emit waits.**  The awaitables handed back by a successful `_emit` are exactly the tokens of all the
+consumer invocations (`sinkStart`) that this emission started, through any depth of transparent nodes, in the
+order they were started. -/
+theorem emit_waits (hT : ∀ i, Transparent (G i)) {fuel : Nat} {n : NodeId} {v : Val} {md : Meta} {S : State}
+    (he : (emitAt G fuel n v md S).err = none) (hc : (emitAt G fuel n v md S).carried = none) :
+    (emitAt G fuel n v md S).toks = sinkStartToks (emitAt G fuel n v md S).log :=
+  run_toks G hT (run_of_ok G fuel (.emit n v md) S ⟨he, hc⟩)
+
+/-- The same for one `downstream.update(x, who, metadata)` call. -/
+theorem update_waits (hT : ∀ i, Transparent (G i)) {fuel : Nat} {d who : NodeId} {v : Val} {md : Meta} {S : State}
+    (he : (update G fuel d who v md S).err = none) (hc : (update G fuel d who v md S).carried = none) :
+    (update G fuel d who v md S).toks = sinkStartToks (update G fuel d who v md S).log :=
+  run_toks G hT (run_of_ok G fuel (.update d who v md) S ⟨he, hc⟩)
+
+/-- With the kinds the model has, no hypothesis on the graph is needed. -/
+theorem emit_waits_every_graph {fuel : Nat} {n : NodeId} {v : Val} {md : Meta} {S : State}
+    (he : (emitAt G fuel n v md S).err = none) (hc : (emitAt G fuel n v md S).carried = none) :
+    (emitAt G fuel n v md S).toks = sinkStartToks (emitAt G fuel n v md S).log :=
+  emit_waits G (fun i => all_kinds_transparent (G i)) he hc
+
+/-- Whenever (in whatever later state `S'`) the emit awaitable is done, every consumer invocation started by the
+emission has finished. -/
+theorem emit_done_implies_consumers_done (hT : ∀ i, Transparent (G i)) {fuel : Nat} {n : NodeId} {v : Val}
+    {md : Meta} {S : State}
+    (he : (emitAt G fuel n v md S).err = none) (hc : (emitAt G fuel n v md S).carried = none)
+    (S' : State) (hd : AwaitDone S' (emitAt G fuel n v md S).toks)
+    {d : NodeId} {t : Tok} {v' : Val} {md' : Meta} (hs : Ev.sinkStart d t v' md' ∈ (emitAt G fuel n v md S).log) :
+    t ∈ S'.doneToks := by
+  apply hd
+  rw [emit_waits G hT he hc]
+  exact mem_sinkStartToks.2 ⟨d, v', md', hs⟩
+
+/-- When `_emit` returns, none of the consumers it started has finished: if it started any, the awaitable is
+pending.  (`hS`: tokens are allocated in increasing order, so a finished one is below `nextTok` — true of every
+state the driver reaches.) -/
+theorem emit_pending_while_consumer_runs (hT : ∀ i, Transparent (G i)) {fuel : Nat} {n : NodeId} {v : Val}
+    {md : Meta} {S : State} (hS : ∀ t ∈ S.doneToks, t < S.nextTok)
+    (he : (emitAt G fuel n v md S).err = none) (hc : (emitAt G fuel n v md S).carried = none)
+    {d : NodeId} {t : Tok} {v' : Val} {md' : Meta} (hs : Ev.sinkStart d t v' md' ∈ (emitAt G fuel n v md S).log) :
+    t ∉ (emitAt G fuel n v md S).st.doneToks ∧
+      ¬ AwaitDone (emitAt G fuel n v md S).st (emitAt G fuel n v md S).toks := by
+  have hr := run_of_ok G fuel (.emit n v md) S ⟨he, hc⟩
+  have ht : t ∈ (emitAt G fuel n v md S).toks := by
+    rw [emit_waits G hT he hc]; exact mem_sinkStartToks.2 ⟨d, v', md', hs⟩
+  have hfresh := (run_tok_range G hr).2 t ht
+  have hdone := run_doneToks G hr
+  simp only [interp] at hfresh hdone
+  have hnot : t ∉ (emitAt G fuel n v md S).st.doneToks := by
+    rw [hdone]; intro hm
+    have := hS t hm
+    unfold Tok at *; omega
+  exact ⟨hnot, fun hd => hnot (hd t ht)⟩
+
+/-- **The emit awaitable cannot complete before every consumer has finished**: if, after the environment has
+finished the invocations `ts` (in any order, interleaved with anything that does not finish consumers), the
+awaitable of the emission is done, then every consumer invocation the emission started is among `ts`. -/
+theorem emit_done_needs_every_sinkDone (hT : ∀ i, Transparent (G i)) {fuel : Nat} {n : NodeId} {v : Val}
+    {md : Meta} {S : State} (hS : ∀ t ∈ S.doneToks, t < S.nextTok)
+    (he : (emitAt G fuel n v md S).err = none) (hc : (emitAt G fuel n v md S).carried = none)
+    {ts : List Tok} {S' : State} (hd : sinkDones ts (emitAt G fuel n v md S).st = some S')
+    (hdone : AwaitDone S' (emitAt G fuel n v md S).toks)
+    {d : NodeId} {t : Tok} {v' : Val} {md' : Meta} (hs : Ev.sinkStart d t v' md' ∈ (emitAt G fuel n v md S).log) :
+    t ∈ ts := by
+  have h1 := emit_done_implies_consumers_done G hT he hc S' hdone hs
+  have h2 := (emit_pending_while_consumer_runs G hT hS he hc hs).1
+  rcases (sinkDones_doneToks hd t).1 h1 with h | h
+  · exact h
+  · exact absurd h h2
+
+/-- **A dropped element completes the emit at once**: an `update` whose body makes no emission (filter with a
+false predicate, a duplicate in `unique`, a partition / window / zip / combine_latest that is still filling)
+returns no awaitable. -/
+theorem dropped_emit_completes {fuel : Nat} {d who : NodeId} {v : Val} {md : Meta} {S : State}
+    (hd : ∀ m, G d ≠ .sink m)
+    (he : (update G fuel d who v md S).err = none) (hc : (update G fuel d who v md S).carried = none)
+    (hno : hasEmit (upd (G d) (S.loc d) who v md).effs = false) :
+    (update G fuel d who v md S).toks = [] ∧ ∀ S', AwaitDone S' (update G fuel d who v md S).toks := by
+  have hr := run_of_ok G fuel (.update d who v md) S ⟨he, hc⟩
+  have ht : (update G fuel d who v md S).toks = [] := by
+    simp only [interp] at hr
+    generalize (update G fuel d who v md S).toks = t at hr
+    generalize (update G fuel d who v md S).log = l at hr
+    generalize (update G fuel d who v md S).st = S1 at hr
+    cases hr with
+    | sink hm _ => exact absurd hm (hd _)
+    | upd _ _ hr' =>
+      split
+      · exact run_noemit_toks G hr' _ _ rfl hno
+      · rfl
+  refine ⟨ht, fun S' t hm => ?_⟩
+  rw [ht] at hm; simp at hm
+
+/-- `filter`: a value the predicate rejects is dropped, the producer is not made to wait. -/
+theorem filter_false_completes {fuel : Nat} {d who : NodeId} {v b : Val} {md : Meta} {S : State} {p : Fn}
+    (hk : G d = .filter p) (hp : p.eval v = .ok b) (hb : b.truthy = false)
+    (he : (update G fuel d who v md S).err = none) (hc : (update G fuel d who v md S).carried = none) :
+    (update G fuel d who v md S).toks = [] := by
+  refine (dropped_emit_completes G (fun m hm => by rw [hk] at hm; cases hm) he hc ?_).1
+  rw [hk]; simp [upd, hp, hb]
+
+/-- **`collect` is a backpressure boundary.**  (1) An element entering `collect` returns no awaitable and starts
+no consumer.  (2) `flush()` — whatever consumers it starts — hands no awaitable to anybody: nobody waits for the
+consumers of a flushed batch. -/
+theorem collect_crosses {fuel : Nat} {d who : NodeId} {v : Val} {md : Meta} {S : State}
+    (hk : G d = .collect) (hT : ∀ i, Transparent (G i))
+    (he : (update G fuel d who v md S).err = none) (hc : (update G fuel d who v md S).carried = none) :
+    ((update G fuel d who v md S).toks = [] ∧ sinkStartToks (update G fuel d who v md S).log = []) ∧
+      ∀ (fuel' : Nat) (S' : State), (flushAt G fuel' d S').toks = [] := by
+  have h1 := (dropped_emit_completes G (fun m hm => by rw [hk] at hm; cases hm) he hc
+    (by rw [hk]; simp [upd])).1
+  refine ⟨⟨h1, ?_⟩, fun fuel' S' => flushAt_toks G fuel' d S'⟩
+  rw [← update_waits G hT he hc, h1]
+
+/-! ### The hypotheses are satisfiable and the statements discriminate -/
+
+/-- source 0 → map inc 1 → async sink 2;  0 → filter isEven 3 → async sink 4;  0 → collect 5 → async sink 6 -/
+def c03G : NodeId → Kind
+  | 0 => .source
+  | 1 => .map .inc
+  | 3 => .filter .isEven
+  | 5 => .collect
+  | _ => .sink .async
+
+def c03S : State :=
+  { loc := fun i => match i with | 1 => { ups := [0] } | 3 => { ups := [0] } | 5 => { ups := [0] } | _ => {}
+    downs := fun i => match i with | 0 => [1, 3, 5] | 1 => [2] | 3 => [4] | 5 => [6] | _ => [] }
+
+/-- an even element reaches both transparent branches: two consumers started, two awaitables returned, none
+for the branch behind `collect` -/
+example : (emitAt c03G 100 0 (.int 4) [] c03S).err = none ∧ (emitAt c03G 100 0 (.int 4) [] c03S).carried = none ∧
+    (emitAt c03G 100 0 (.int 4) [] c03S).toks = [0, 1] ∧
+    sinkStartToks (emitAt c03G 100 0 (.int 4) [] c03S).log = [0, 1] := by decide +kernel
+/-- an odd element is dropped by the filter: only the `map` branch makes the producer wait -/
+example : (emitAt c03G 100 0 (.int 5) [] c03S).toks = [0] := by decide +kernel
+/-- ... the awaitable is pending right after the emission and done once the consumer has finished -/
+example : ¬ AwaitDone (emitAt c03G 100 0 (.int 5) [] c03S).st (emitAt c03G 100 0 (.int 5) [] c03S).toks := by
+  obtain ⟨d, v', md', hs⟩ := mem_sinkStartToks.1
+    (show 0 ∈ sinkStartToks (emitAt c03G 100 0 (.int 5) [] c03S).log by decide +kernel)
+  exact (emit_pending_while_consumer_runs c03G (fun i => all_kinds_transparent _) (by decide) (by decide +kernel)
+    (by decide +kernel) hs).2
+example : (sinkDones [0] (emitAt c03G 100 0 (.int 5) [] c03S).st).map (·.doneToks) = some [0] := by
+  decide +kernel
+/-- the filter's own update returns nothing for the odd element -/
+example : (update c03G 100 3 0 (.int 5) [] c03S).toks = [] :=
+  filter_false_completes c03G (p := .isEven) (b := .int 0) rfl rfl rfl (by decide +kernel) (by decide +kernel)
+/-- flushing the collect node starts a consumer (token 2 after the emission above) but returns no awaitable -/
+example : sinkStartToks (flushAt c03G 100 5 (emitAt c03G 100 0 (.int 4) [] c03S).st).log = [2] ∧
+    (flushAt c03G 100 5 (emitAt c03G 100 0 (.int 4) [] c03S).st).toks = [] := by decide +kernel
+
+/-! ### C03 clauses 2 and 3 for `zip(maxsize)`: restated from `Props/AsyncZip.lean` -/
+
+/-- Bound: with producers that await each emission, at most `maxsize + 1` unmatched elements per upstream are
+buffered and at most `maxsize` of them are accepted (emit awaitable done), for every schedule. -/
+theorem zip_maxsize_bound_partial {α : Type} (cfg : AsyncZip.Cfg) (as : List (AsyncZip.Act α))
+    (hd : AsyncZip.RunWith AsyncZip.Awaits cfg (AsyncZip.init α) as) (u : Nat) :
+    ((AsyncZip.run cfg as).bufs u).length ≤ cfg.maxsize + 1 ∧
+    ((AsyncZip.run cfg as).bufs u).length - AsyncZip.blockedCount (AsyncZip.run cfg as) u ≤ cfg.maxsize :=
+  AsyncZip.c03_zip_bound_awaiting_partial cfg as hd u
+
+/-- Recorded finding `zip-maxsize-admits-all-blocked`: without that discipline the bound fails (witness). -/
+theorem zip_maxsize_admits_all_blocked :
+    ∃ (cfg : AsyncZip.Cfg) (as : List (AsyncZip.Act Nat)),
+      (∀ e ∈ (AsyncZip.run cfg as).emits, e.2 = .done) ∧
+      ¬ ((AsyncZip.run cfg as).bufs 0).length ≤ cfg.maxsize + 1 :=
+  ⟨_, _, AsyncZip.c03_zip_admits_all_blocked.2.1, AsyncZip.c03_zip_admits_all_blocked.2.2.2.1⟩
+
+/-- No deadlock: once every consumer has finished, every emit awaitable is done except those of producers that
+are more than `maxsize` ahead of the shortest input. -/
+theorem zip_no_deadlock {α : Type} (cfg : AsyncZip.Cfg) (as : List (AsyncZip.Act α))
+    (hp : (AsyncZip.run cfg as).pending = []) :
+    ∀ e ∈ (AsyncZip.run cfg as).emits, e.2 = .done ∨
+      (e.2 = .blocked ∧
+        (AsyncZip.run cfg as).outs.length + cfg.maxsize < (AsyncZip.arrivalsOf cfg e.1 as).length) :=
+  AsyncZip.c03_zip_all_complete cfg as hp
+
 end StreamzVerif.Graph
